@@ -591,6 +591,8 @@ def r02_10(chk, facts):
                     arg = A.ref_name((ct[0].get('args') or [None])[0])
                     out.append((A.callee_name(ct[0]), arg, bool(lab) == ct[1]))
             return out
+        first_names = set()
+        convs = []
         for nd in g.rpo:
             if nd.kind != 'stmt' or not isinstance(nd.ast, dict): continue
             # (a) the pair combination
@@ -598,23 +600,31 @@ def r02_10(chk, facts):
             comb = sorted(comb, key=lambda y: -sum(1 for _ in A.walk(y)))[:1]       # the whole sum, not its left-associated prefix
             if comb:
                 n += 1
-                second = [A.ref_name(z.get('lhs')) for z in A.walk(comb[0]) if z.get('k') == 'BinaryOperator' and z.get('op') == '&' and A.const(z.get('rhs')) == 0x3FF]
+                masked = [z for z in A.walk(comb[0]) if z.get('k') == 'BinaryOperator' and z.get('op') == '&' and A.const(z.get('rhs')) == 0x3FF]
+                shifted = set(id(m_) for y in A.walk(comb[0]) if y.get('k') == 'BinaryOperator' and y.get('op') == '<<' for m_ in A.walk(y.get('lhs')))
+                # the low half is the masked operand that is not shifted; the high half (the first escape) is the shifted one
+                second = [A.ref_name(z.get('lhs')) for z in masked if id(z) not in shifted]
+                first_names.update(A.ref_name(z.get('lhs')) for z in masked if id(z) in shifted)
                 sg = surro_guards(nd)
                 ok = any(nm == 'is_low_surrogate' and val is True and arg in second for nm, arg, val in sg)
                 site = U.site(fn, 'surrogate pair combination')
                 if ok: chk.ok('R02.10', site, {'line': nd.line})
                 else: chk.fail('R02.10', site, fn['file'], nd.line, 'parse_string combines two \\u escapes into a code point (line %s) without having tested the second one as a low surrogate: '
                                '"\\uD800\\u0041" decodes to U+10041' % nd.line, None, fn['q'])
-            # (b) conversion of a single escape
+            # (b) conversion of a single escape (collected first: the name of the first-escape member comes from the combination)
             for c in A.calls_in(nd.ast):
                 if A.callee_name(c) == 'convert' and c.get('args'):
                     a0 = A.strip(c['args'][0], casts=True)
                     tgt = A.ref_name(a0.get('sub')) if a0 is not None and a0.get('k') == 'UnaryOperator' and a0.get('op') == '&' else None
-                    if tgt != 'cp_': continue
+                    if tgt: convs.append((nd, tgt))
+        for nd, tgt in convs:
+            if True:
+                if True:
+                    if tgt not in first_names: continue
                     n += 1
                     sg = surro_guards(nd)
-                    hi = any(nm in ('is_high_surrogate', 'is_surrogate') and arg == 'cp_' and val is False for nm, arg, val in sg)
-                    lo = any(nm in ('is_low_surrogate', 'is_surrogate') and arg == 'cp_' and val is False for nm, arg, val in sg)
+                    hi = any(nm in ('is_high_surrogate', 'is_surrogate') and arg == tgt and val is False for nm, arg, val in sg)
+                    lo = any(nm in ('is_low_surrogate', 'is_surrogate') and arg == tgt and val is False for nm, arg, val in sg)
                     site = U.site(fn, 'single escape conversion')
                     if hi and lo: chk.ok('R02.10', site, {'line': nd.line})
                     else: chk.fail('R02.10', site, fn['file'], nd.line, 'parse_string converts a single \\u escape to text (line %s) without excluding %s surrogates: a lone surrogate is not a '
